@@ -170,7 +170,7 @@ def gen_port(rng, proto: str, platform: str, version: str, *, ops=None, small=No
     op = rng.choice(ops or ["eq", "eq", "neq", "lt", "gt", "range"])
     if op in ("eq", "neq"):
         cnt = 1
-        if platform == "ios" and rng.random() < 0.4:
+        if platform == "ios" and max_operands >= 2 and rng.random() < 0.4:
             cnt = rng.randint(2, max_operands)
         operands = []
         while len(operands) < cnt:
